@@ -1,1 +1,97 @@
-From TL Require Import Base.Base.
+(* C05 - Closures keep the local values they were created with.              *)
+(* Statements only; the proofs are in Proofs/Closures.v and Proofs/EvalRel.v. *)
+From TL Require Import Base.Base Model.Reader Model.Printer Model.Store Model.Eval Model.Init.
+From TL Require Import Proofs.Closures Proofs.EvalRel.
+Local Open Scope list_scope.
+
+(* The capture walk of `lambda`, one symbol occurrence at a time (the walk   *)
+(* visits every occurrence: nested lists, dotted tails, under all five quote  *)
+(* marks - Model/Eval.v capture):                                             *)
+(* - a variable that is not locally bound at creation is left alone           *)
+Theorem C05_free_variable_untouched : forall excl caps x s,
+  lex_bound x s = (Ok false, s) -> capture_symbol excl caps x s = (Ok (x, caps), s).
+Proof. exact capture_symbol_not_local. Qed.
+(* - the lambda's own parameters are left alone                                *)
+Theorem C05_parameter_untouched : forall excl caps x s,
+  lex_bound x s = (Ok true, s) -> in_excl excl x = true ->
+  capture_symbol excl caps x s = (Ok (x, caps), s).
+Proof. exact capture_symbol_parameter. Qed.
+(* - the first occurrence of a locally bound variable becomes a new cell with *)
+(*   a fresh serial that holds the value the variable has at creation           *)
+Theorem C05_captures_current_value : forall excl caps x s k v rest n,
+  symbolp x = true -> key_of x = Some k -> keywordp x = false -> sym_name x = Some n ->
+  lex_bound x s = (Ok true, s) -> in_excl excl x = false -> find_cap caps x = None ->
+  bitems (sget s k) = v :: rest ->
+  let c := Cell n (next_id s) (cell_root x) in
+  let s1 := bump_id s in
+  capture_symbol excl caps x s =
+  (Ok (c, caps ++ [(x, c)]),
+   sput s1 (key_of_id (next_id s)) (b_set (sget s1 (key_of_id (next_id s))) v)).
+Proof. exact capture_symbol_new. Qed.
+(* - every later occurrence gets the same cell                                  *)
+Theorem C05_one_cell_per_variable : forall excl caps x c s,
+  lex_bound x s = (Ok true, s) -> in_excl excl x = false -> find_cap caps x = Some c ->
+  capture_symbol excl caps x s = (Ok (c, caps), s).
+Proof. exact capture_symbol_again. Qed.
+
+(* Cells: a cell reads its own slot regardless of what any variable (in      *)
+(* particular the same-named one) is bound to at call time; an assignment      *)
+(* changes that slot only and is read back by the next call; the slot is        *)
+(* never popped by any evaluation (C03: depths never decrease)                  *)
+Theorem C05_cell_ignores_caller_bindings : forall n id root s k b,
+  k <> key_of_id id ->
+  fst (sym_get (Cell n id root) (sput s k b)) = fst (sym_get (Cell n id root) s).
+Proof. exact cell_read_independent. Qed.
+Theorem C05_cell_key_is_private : forall nm id, key_of_name nm <> key_of_id id.
+Proof. exact name_key_not_cell_key. Qed.
+Theorem C05_cell_assignment_persists : forall n id root v s,
+  exists s', sym_set (Cell n id root) v s = (Ok tt, s') /\
+             fst (sym_get (Cell n id root) s') = Ok v /\
+             forall k, k <> key_of_id id -> sget s' k = sget s k.
+Proof. exact cell_write_read. Qed.
+Theorem C05_cell_survives_evaluation : forall F fuel t s s' r id,
+  eval_string F fuel t s = (r, s') -> r <> Fuel ->
+  (depth s (key_of_id id) <= depth s' (key_of_id id))%nat.
+Proof.
+  intros F fuel t s s' r id H Hr. destruct (eval_string_inv F fuel t s r s' H Hr) as [I _].
+  pose proof (I (key_of_id id)) as X. unfold cnt in X; simpl in X. lia.
+Qed.
+
+Print Assumptions C05_free_variable_untouched. Print Assumptions C05_parameter_untouched.
+Print Assumptions C05_captures_current_value. Print Assumptions C05_one_cell_per_variable.
+Print Assumptions C05_cell_ignores_caller_bindings. Print Assumptions C05_cell_key_is_private.
+Print Assumptions C05_cell_assignment_persists. Print Assumptions C05_cell_survives_evaluation.
+
+(* non-vacuity: creation value kept under rebinding; own assignments persist; *)
+(* free variables and parameters resolved at call time; occurrence in a nested *)
+(* list, a dotted tail and under a backquote                                    *)
+Definition F0 : fops :=
+  {| f_add := fun _ _ => 0%Z; f_sub := fun _ _ => 0%Z; f_mul := fun _ _ => 0%Z;
+     f_div := fun _ _ => 0%Z; f_rem := fun _ _ => 0%Z; f_pow := fun _ _ => 0%Z;
+     f_max := fun _ _ => 0%Z; f_min := fun _ _ => 0%Z; f_of_int := fun z => z;
+     f_to_int := fun z => z; f_round := fun z => z; f_trunc := fun z => z;
+     f_lt := Z.ltb; f_le := Z.leb; f_eq := Z.eqb; f_is_finite := fun _ => true;
+     f_to_dec := fun _ => []; f_of_dec := fun _ => None |}.
+Definition ev0 (p : string) := fst (eval_string F0 80 (s2t p) (init_state [] None)).
+Example C05_ex1 :
+  ev0 "(setq g 5) (setq f (let ((x 1)) (lambda (p) (list x p g)))) (setq x 100) (let ((x 7) (g 6)) (funcall f x))"
+  = ev0 "'(1 7 6)".
+Proof. vm_compute. reflexivity. Qed.
+Example C05_ex2 :
+  ev0 "(setq c (let ((n 0)) (lambda () (setq n (+ n 1)) n))) (setq n 50) (list (funcall c) (funcall c) (funcall c) n)"
+  = ev0 "'(1 2 3 50)".
+Proof. vm_compute. reflexivity. Qed.
+Example C05_ex3 :
+  ev0 "(setq f (let ((x 1)) (lambda () `(a (b ,x) . ,x)))) (let ((x 2)) (funcall f))"
+  = ev0 "'(a (b 1) . 1)".
+Proof. vm_compute. reflexivity. Qed.
+
+Check C05_captures_current_value : forall excl caps x s k v rest n,
+  symbolp x = true -> key_of x = Some k -> keywordp x = false -> sym_name x = Some n ->
+  lex_bound x s = (Ok true, s) -> in_excl excl x = false -> find_cap caps x = None ->
+  bitems (sget s k) = v :: rest ->
+  let c := Cell n (next_id s) (cell_root x) in
+  let s1 := bump_id s in
+  capture_symbol excl caps x s =
+  (Ok (c, caps ++ [(x, c)]),
+   sput s1 (key_of_id (next_id s)) (b_set (sget s1 (key_of_id (next_id s))) v)).
